@@ -367,7 +367,9 @@ def run(ctx):
     ctx.coq()
     drv = ctx.build_driver('Table')
     h = ctx.build_harness('table_wb.c', whitebox='Table')
-    henv = dict(os.environ, H_TIMEOUT='3')       # a case takes microseconds; a hang is an observation
+    # glibc scribbles over freed memory (the harness calls mallopt(M_PERTURB)); chunks that go to the thread
+    # cache are skipped by glibc >= 2.26, so the cache is switched off for the harness process
+    henv = dict(os.environ, H_TIMEOUT='3', GLIBC_TUNABLES='glibc.malloc.tcache_count=0')       # a case takes microseconds; a hang is an observation
     run_impl = lambda cs: ctx.run_lines(h, cs, env=henv, timeout=3000)[1]
     run_model = lambda cs: ctx.run_lines(drv, cs, args=['model'])[1]
     run_spec = lambda cs: ctx.run_lines(drv, cs, args=['spec'])[1]
